@@ -124,7 +124,12 @@ int main(int argc, char ** argv)
       return norm2(H * xl + g) / (Hnorm * norm2(xl) + norm2(g) + std::numeric_limits<L>::min());
     };
     if (p.r.isZero(0)) {
-      rep.require("ldlt.zero_r_gives_zero_step", st, xd.isZero(0) && xs.isZero(0) && std::isfinite(dphi_d) && std::isfinite(dphi_s), det);
+      auto detz = [&]() {
+        return JObj().raw("problem", det()).num("dense_dx_maxabs", xd.cwiseAbs().maxCoeff()).num("dense_dphi", dphi_d)
+          .num("sparse_dx_maxabs", xs.cwiseAbs().maxCoeff()).num("sparse_dphi", dphi_s).done();
+      };
+      rep.require("ldlt.dense.zero_r_gives_zero_step", st, xd.isZero(0) && std::isfinite(dphi_d), detz);
+      rep.require("ldlt.sparse.zero_r_gives_zero_step", st, xs.isZero(0) && std::isfinite(dphi_s), detz);
       return;
     }
     rep.judge("ldlt.dense.normal_equations", st, backward(xd), 1e-8L, det);
